@@ -217,7 +217,9 @@ def classify(h, out, wall):
 def run_group(hs, jobs, tag):
     """Run harnesses sharing mode/cbmc args in one cargo-kani invocation (one compile, -j jobs)."""
     tmo = max(h.get("timeout", 300) for h in hs)
-    mem = max(h.get("mem_gb", 12) for h in hs)
+    # RLIMIT_AS counts virtual address space, which CBMC reserves far beyond its resident set
+    # (a 38 s / 2 GB-RSS harness died under a 16 GB cap): the cap is a backstop only.
+    mem = max(40, max(h.get("mem_gb", 12) for h in hs))
     logpath = os.path.join(LOGS, "group_%s.log" % tag)
     t0 = time.time()
     # overall cap: every harness could hit its timeout in each of ceil(n/jobs) waves, plus compile
